@@ -31,10 +31,17 @@ def restart(scen, info, mode):
         return
     # state route
     target = old.scheduler if scen["kind"] == "median" and hasattr(old, "scheduler") else old
+    # A searcher is complete only once its scheduler has configured it (done lazily by the scheduler at its first
+    # call; surrogate models with one likelihood per rung level cannot even report their parameters before): the
+    # snapshot is taken from, and restored into, configured searchers.
+    if hasattr(target, "_initialize_searcher"):
+        target._initialize_searcher()
     searcher = target.searcher
     state = pickle.loads(pickle.dumps(searcher.get_state()))
     fresh, _ = zoo.build_scheduler(scen)
     fresh_target = fresh.scheduler if scen["kind"] == "median" and hasattr(fresh, "scheduler") else fresh
+    if hasattr(fresh_target, "_initialize_searcher"):
+        fresh_target._initialize_searcher()
     clone = fresh_target.searcher.clone_from_state(state)
     clone.configure_scheduler(target)
     target._searcher = clone
@@ -114,6 +121,31 @@ def run(scen, spec, props):
             if not same:
                 res["viol"].append(V("C16", "R3.restored_data_differs", trA,
                                      "surrogate data after restore at call boundary %d differs from the uninterrupted run" % p, None, mode=mode))
+        # random or model-based?  That choice is a function of the restored state alone (number of known
+        # configurations vs the configured number of initial random draws), so it must agree with the uninterrupted run
+        # for every suggestion up to and including the first model-based one after the restore.
+        sA = [e for e in trA.events if e["k"] == "s.ret"]
+        sB = [e for e in trB.events if e["k"] == "s.ret"]
+        for i in range(p, min(len(sA), len(sB))):
+            a, b = sA[i], sB[i]
+            if a.get("m") != b.get("m") or a.get("trial") != b.get("trial"):
+                break
+            if a.get("m") != "suggest":
+                if a.get("ret") != b.get("ret"):
+                    break
+                continue
+            pa, pb = a.get("gp_pick"), b.get("gp_pick")
+            if pa is None or pb is None:
+                break
+            if pa != pb:
+                res["viol"].append(V("C16", "R1.random_phase_differs", trA,
+                                     "after restore (state) at call boundary %d suggestion for trial %s is %s, in the uninterrupted run it is %s" % (
+                                         p, a.get("trial"), _phase(pb), _phase(pa)), None, mode=mode, searcher="gp"))
+                break
+            if pa and not pa[-1]:
+                break  # first model-based suggestion: from here on the two runs may legitimately differ
+            if (a.get("ret") or {}).get("config") != (b.get("ret") or {}).get("config"):
+                break
         seen = {}
         for d in dB:
             if d[0] == "suggest" and d[2]:
@@ -134,6 +166,10 @@ def run(scen, spec, props):
                              "after restore (%s) at call boundary %d of %d the continuation differs at scheduler event %d: %s vs %s" % (
                                  mode, p, H, i, a, b), None, mode=mode, what=(a or b)[0], searcher=_searcher_kind(scen)))
     return res
+
+
+def _phase(picks):
+    return "not drawn by the searcher's random/model step" if not picks else ("drawn at random" if picks[-1] else "model-based")
 
 
 def _searcher_kind(scen):
